@@ -22,7 +22,7 @@ namespace Hidi.Props.C16
 open Hidi Hidi.Life Hidi.LifeLemmas
 
 theorem C16_life_source_facts :
-    Gen.lifeLedLoopsWatchCtx = true ∧ Gen.lifeMidiInLoopsWatchCtx = true ∧ Gen.lifeProcessEventsOrder = "AggRCLUW" ∧
+    Gen.lifeLedLoopsWatchCtx = true ∧ Gen.lifeMidiInLoopsWatchCtx = true ∧ Gen.lifeProcessEventsOrderOK = true ∧
     Gen.lifeHandlersDeferDone = true ∧
     Gen.deviceLockNesting = [("ProcessEvents", "eventProcessMutex", "externalTrackerMutex"),
                              ("handleOpenrgb", "eventProcessMutex", "externalTrackerMutex")] := by decide
